@@ -430,3 +430,129 @@ pub fn abs_variant(prog: &J, kind: &str, r: &mut Rng) -> Option<J> {
     }
     Some(p)
 }
+
+// ---------------------------------------------------------------------------------------------
+// C14 helpers
+
+/// can the body of this rule be written as bare clauses (the implicit default rule)?  No rule
+/// conditions, no rule-level assignments; every line consists of type blocks only or of
+/// value / block / call clauses only; a when block stands alone on its line.
+pub fn bare_ok(rule: &J) -> bool {
+    if rule["w"].as_array().map(|a| !a.is_empty()).unwrap_or(false) {
+        return false;
+    }
+    if rule["lets"].as_array().map(|a| !a.is_empty()).unwrap_or(false) {
+        return false;
+    }
+    let lines = match rule["b"].as_array() {
+        Some(l) if !l.is_empty() => l,
+        _ => return false,
+    };
+    for line in lines {
+        let alts = line.as_array().unwrap();
+        let kinds: Vec<&str> = alts.iter().map(|c| c["c"].as_str().unwrap()).collect();
+        let all_type = kinds.iter().all(|k| *k == "type");
+        let all_plain = kinds.iter().all(|k| matches!(*k, "gac" | "block" | "pcall"));
+        let lone_when = kinds.len() == 1 && kinds[0] == "when";
+        if !(all_type || all_plain || lone_when) {
+            return false;
+        }
+    }
+    true
+}
+
+fn rename_refs(j: &mut J, old: &str, new: &str) {
+    match j {
+        J::Object(m) => {
+            if m.get("c").and_then(|c| c.as_str()) == Some("named") && m.get("n").and_then(|c| c.as_str()) == Some(old) {
+                m.insert("n".to_string(), json!(new));
+            }
+            for (_, v) in m.iter_mut() {
+                rename_refs(v, old, new);
+            }
+        }
+        J::Array(a) => {
+            for v in a.iter_mut() {
+                rename_refs(v, old, new);
+            }
+        }
+        _ => {}
+    }
+}
+
+/// rename every rule called `old` and every reference to it
+pub fn rename_rule(prog: &mut J, old: &str, new: &str) {
+    for r in prog["rules"].as_array_mut().unwrap() {
+        if r["n"].as_str() == Some(old) {
+            r["n"] = json!(new);
+        }
+    }
+    rename_refs(prog, old, new);
+}
+
+/// is there a type block without conditions anywhere in the program?
+pub fn has_plain_type_block(j: &J) -> bool {
+    match j {
+        J::Object(m) => {
+            if m.get("c").and_then(|c| c.as_str()) == Some("type")
+                && m.get("w").and_then(|w| w.as_array()).map(|a| a.is_empty()).unwrap_or(true)
+            {
+                return true;
+            }
+            m.values().any(has_plain_type_block)
+        }
+        J::Array(a) => a.iter().any(has_plain_type_block),
+        _ => false,
+    }
+}
+
+/// FNV-1a digest of a text, as 16 hex digits (equality of long texts inside TLC)
+pub fn digest(s: &str) -> String {
+    let mut h: u64 = 0xcbf2_9ce4_8422_2325;
+    for b in s.as_bytes() {
+        h ^= *b as u64;
+        h = h.wrapping_mul(0x0000_0100_0000_01b3);
+    }
+    format!("{:016x}", h)
+}
+
+fn cps(s: &str) -> J {
+    json!(s.chars().map(|c| c as u32).collect::<Vec<u32>>())
+}
+
+/// every type block without conditions rewritten as the block clause the documentation gives as
+/// its meaning: `AWS::X::Y { .. }`  ==>  `Resources.*[ Type == "AWS::X::Y" ] { .. }`
+pub fn type_to_query(j: &J) -> J {
+    match j {
+        J::Object(m) => {
+            if m.get("c").and_then(|c| c.as_str()) == Some("type")
+                && m.get("w").and_then(|w| w.as_array()).map(|a| a.is_empty()).unwrap_or(true)
+            {
+                let tn = m["tn"].as_str().unwrap();
+                let filter = json!([[{"c":"gac","q":[{"p":"key","k":cps("Type")}],"all":true,"neg":false,
+                                      "op":"eq","on":false,"rhs":[{"r":"val","v":{"t":"str","v":cps(tn)}}]}]]);
+                return json!({"c":"block",
+                              "q":[{"p":"key","k":cps("Resources")},{"p":"all"},{"p":"filter","c":filter}],
+                              "all":true,"ne":false,
+                              "lets": type_to_query(&m["lets"]), "b": type_to_query(&m["b"])});
+            }
+            J::Object(m.iter().map(|(k, v)| (k.clone(), type_to_query(v))).collect())
+        }
+        J::Array(a) => J::Array(a.iter().map(type_to_query).collect()),
+        other => other.clone(),
+    }
+}
+
+/// is the rule `name` referred to by name anywhere in the program?
+pub fn is_referenced(j: &J, name: &str) -> bool {
+    match j {
+        J::Object(m) => {
+            if m.get("c").and_then(|c| c.as_str()) == Some("named") && m.get("n").and_then(|c| c.as_str()) == Some(name) {
+                return true;
+            }
+            m.values().any(|v| is_referenced(v, name))
+        }
+        J::Array(a) => a.iter().any(|v| is_referenced(v, name)),
+        _ => false,
+    }
+}
